@@ -24,19 +24,34 @@ def candidates(props):
     out = []
     for fn, ps in sorted(by_fn.items()):
         b = F.body(fn)
-        if b is None or "{closure" in fn or not b.raw.get("locals") or str(b.raw["locals"][0]) != "()":
+        if b is None or "{closure" in fn or not b.raw.get("locals") or (OP == "panic-return" and str(b.raw["locals"][0]) != "()"):
             continue
         sp = b.raw["sp"]                      # {"f": file, "l": line, "c": col}
         if b.raw.get("expanded") or not sp.get("f", "").startswith("tracing") or "/src/" not in sp["f"]:
             continue
-        out.append(dict(fn=fn, file=sp["f"], line=int(sp["l"]), props=sorted(ps)))
+        m = re.match(r".*:(\d+)-(\d+)$", str(b.raw.get("span", "")))
+        out.append(dict(fn=fn, file=sp["f"], line=int(sp["l"]), end=int(m.group(2)) if m else int(sp["l"]) + 60, props=sorted(ps)))
     return out
+
+
+OP = "panic-return"
 
 
 def mutate(wt, c):
     path = os.path.join(wt, c["file"])
     lines = open(path).read().split("\n")
     i = c["line"] - 1
+    if OP == "negate-if":
+        # negate the first plain `if <cond> {` of the function (not `if let`, not inside a macro invocation line)
+        end = c.get("end", i + 60)
+        for k in range(i, min(end, len(lines))):
+            m = re.match(r"^(\s*)(\}\s*else\s+)?if (?!let\b)(.+) \{\s*$", lines[k])
+            if m and "cfg!" not in lines[k]:
+                lines[k] = "%s%sif !(%s) {" % (m.group(1), m.group(2) or "", m.group(3))
+                open(path, "w").write("\n".join(lines))
+                c["mutated_line"] = k + 1
+                return True
+        return False
     # find the line that opens the body: first line from the signature on that ends with `{`
     for k in range(i, min(i + 25, len(lines))):
         if lines[k].rstrip().endswith("{") and not lines[k].lstrip().startswith("//"):
@@ -71,8 +86,11 @@ def worker(args):
 
 
 def main():
+    global OP
     args = sys.argv[1:]
     jobs = 4
+    if args[:1] == ["--op"]:
+        OP = args[1]; args = args[2:]
     if args[:1] == ["-j"]:
         jobs = int(args[1]); args = args[2:]
     props = args or ["C%02d" % i for i in range(1, 20)]
@@ -94,7 +112,7 @@ def main():
             shutil.rmtree(wt, ignore_errors=True)
     res = [r for p in parts for r in p]
     os.makedirs(os.path.join(VERIF, ".cache"), exist_ok=True)
-    json.dump(res, open(os.path.join(VERIF, ".cache", "survey.json"), "w"), indent=1)
+    json.dump(res, open(os.path.join(VERIF, ".cache", "survey-%s.json" % OP), "w"), indent=1)
     missed = [r for r in res if r["outcome"] == "MISSED"]
     print("survey: %d mutants, %d caught, %d build failures, %d MISSED" % (len(res), sum(r["outcome"] == "caught" for r in res),
                                                                            sum(r["outcome"] == "build" for r in res), len(missed)))
